@@ -8,6 +8,7 @@ import (
 	"bufio"
 	"encoding/json"
 	"fmt"
+	mrand "math/rand"
 	"os"
 	"regexp"
 	"runtime"
@@ -336,3 +337,24 @@ func Start(id int, fn func() any) *Op {
 
 // Done reports whether the operation has returned.
 func (o *Op) Done() bool { return o.done.Load() }
+
+// ---------------------------------------------------------------- random numbers
+
+// Rand is a math/rand generator that may be shared between goroutines (the recorders hand the
+// generator of a driver thread to helper goroutines, e.g. the one that cancels a context after a
+// random number of yields; *rand.Rand itself is not safe for that and can even panic).
+type Rand struct {
+	mu sync.Mutex
+	r  *mrand.Rand
+}
+
+// NewRand returns a locked generator seeded with seed.
+func NewRand(seed int64) *Rand { return &Rand{r: mrand.New(mrand.NewSource(seed))} }
+
+func (r *Rand) Intn(n int) int { r.mu.Lock(); defer r.mu.Unlock(); return r.r.Intn(n) }
+func (r *Rand) Int63() int64   { r.mu.Lock(); defer r.mu.Unlock(); return r.r.Int63() }
+func (r *Rand) Perm(n int) []int {
+	r.mu.Lock()
+	defer r.mu.Unlock()
+	return r.r.Perm(n)
+}
